@@ -320,6 +320,22 @@ def m_peek(it, recv, args, e, mod, discard):
     return r.buf
 
 
+@method("sort_unstable", "sort")
+def m_sort(it, recv, args, e, mod, discard):
+    r = it.resolve(recv)
+    if not isinstance(r, VecV):
+        raise InternalError("sort on %s" % type(r).__name__)
+    # insertion sort; comparisons on symbolic elements fork
+    out = []
+    for x in r:
+        i = len(out)
+        while i > 0 and it.truth(it.compare("<", x, out[i - 1])):
+            i -= 1
+        out.insert(i, x)
+    r[:] = out
+    return UNIT
+
+
 @method("join")
 def m_join(it, recv, args, e, mod, discard):
     r = it.resolve(recv)
